@@ -205,4 +205,10 @@ PROPS = {
                 explanation='Histories inside one symbolic path: clean(...clean(x, c1)..., cn) against clean(x, cn) for non-decreasing times (2000 / 2005 / 2015 '
                             'against expiries 2001 / 2010 / 2999) and growing target sets, compared modulo blanks by a DP alignment decided by z3; and '
                             'clean(clean(x, c), c) == clean(x, c) byte for byte. The second run works on the symbolic output of the first.'),
+    'C18': dict(jobs=props_pipe.c18_jobs, tv=('front', 'pipe', 'list'), assumptions=PIPE_ASSUME + [
+                    'no byte of a delimiter occurs in the text, the tag names or the attribute texts, and delimiters contain no line break (the statement\'s side condition, as a solver constraint)',
+                    'the start delimiter does not begin with a blank or tab (such a tag is indistinguishable from indentation for the dedent; outside the claim)'],
+                explanation='Relational: every template is rendered with < > / t m and with a second spelling - pool pairs with natural-language tag names, and fully '
+                            'symbolic delimiters (1..4 bytes each, any valid UTF-8, identical start/end allowed) with symbolic tag names - sharing the same hole '
+                            'variables; clean under the second spelling must equal the rewritten output of the first, list_all line ranges and statuses must be equal.'),
 }
